@@ -21,6 +21,8 @@ type GoImport struct {
 	Alias string // "" = none
 	// Qual is the qualifier a call through this import is written with (alias, or last path element).
 	Qual string
+	// Raw: the path is written as a raw string literal (`os`) instead of an interpreted one ("os")
+	Raw bool
 }
 
 // GoField is one field / parameter declaration line: `a, b T`.
@@ -39,8 +41,9 @@ type GoStruct struct {
 
 type GoIfaceMethod struct {
 	Name    string
-	Params  string // rendered
-	Results string // rendered
+	Params  string    // rendered
+	Fields  []GoField // the same parameters, structured (names may be the blank identifier)
+	Results string    // rendered
 }
 
 type GoIface struct {
@@ -73,11 +76,15 @@ type GoRecv struct {
 }
 
 type GoFunc struct {
-	Name    string
-	Recv    *GoRecv
-	Params  []GoField
-	Results string // rendered: "", " error", " (int, error)", " (n int, err error)"
-	Body    []GoStmt
+	// NoBody: a declaration without a body (`func ext(a int) int`, implemented outside Go); free functions only
+	NoBody bool
+	// AboveType: a method written above the declaration of its receiver type (set by the layout)
+	AboveType bool
+	Name      string
+	Recv      *GoRecv
+	Params    []GoField
+	Results   string // rendered: "", " error", " (int, error)", " (n int, err error)"
+	Body      []GoStmt
 }
 
 type GoDecl struct {
@@ -236,7 +243,16 @@ func (g *goGen) fields(lo, hi int, allowEmbedded bool) []GoField {
 		if allowEmbedded && len(fl.Names) > 0 && r.Chance(1, 10) {
 			fl.Tag = "`json:\"" + strings.ToLower(fl.Names[0]) + "\"`"
 		}
+		if allowEmbedded && len(fl.Names) > 1 && r.Chance(1, 6) {
+			fl.Names[r.Intn(len(fl.Names))] = "_" // `a, _ int`
+		}
 		fs = append(fs, fl)
+	}
+	if allowEmbedded && r.Chance(1, 10) {
+		// a blank field (padding / "do not compare" marker)
+		blank := GoField{Names: []string{"_"}, Type: r.Pick([]string{"[0]func()", "int", "[4]byte", "[0]func()"})}
+		at := r.Intn(len(fs) + 1)
+		fs = append(fs[:at], append([]GoField{blank}, fs[at:]...)...)
 	}
 	return fs
 }
@@ -252,6 +268,10 @@ func (g *goGen) params() []GoField {
 			k = 2
 		}
 		for j := 0; j < k; j++ {
+			if r.Chance(1, 8) {
+				fl.Names = append(fl.Names, "_") // an unused parameter is still a parameter
+				continue
+			}
 			fl.Names = append(fl.Names, g.nm.lower())
 		}
 		if i == n-1 && r.Chance(1, 10) {
@@ -340,14 +360,18 @@ func (g *goGen) body(fn *GoFunc) []GoStmt {
 	var vars []string
 	for _, p := range fn.Params {
 		if !p.Variadic {
-			vars = append(vars, p.Names...)
+			for _, n := range p.Names {
+				if n != "_" {
+					vars = append(vars, n)
+				}
+			}
 		}
 	}
 	var callVars []string
 	if fn.Recv != nil && fn.Recv.Var != "" {
 		callVars = append(callVars, fn.Recv.Var)
 		vars = append(vars, fn.Recv.Var)
-	} else if fn.Recv == nil && len(fn.Params) > 0 && !fn.Params[0].Variadic && r.Chance(1, 2) {
+	} else if fn.Recv == nil && len(fn.Params) > 0 && !fn.Params[0].Variadic && fn.Params[0].Names[0] != "_" && r.Chance(1, 2) {
 		callVars = append(callVars, fn.Params[0].Names[0])
 	}
 	var quals []string
@@ -527,6 +551,7 @@ func GenGo(r *run.Rand, file string, idBase int) *GoFile {
 			im.Alias = "_"
 			im.Qual = ""
 		}
+		im.Raw = r.Chance(1, 6)
 		if im.Qual != "" && usedQual[im.Qual] {
 			continue
 		}
@@ -573,7 +598,8 @@ func GenGo(r *run.Rand, file string, idBase int) *GoFile {
 			nm = 0
 		}
 		for j := 0; j < nm; j++ {
-			it.Methods = append(it.Methods, GoIfaceMethod{Name: g.nm.camelVerb(!r.Chance(1, 5)), Params: renderParams(g.params()), Results: g.results()})
+			ps := g.params()
+			it.Methods = append(it.Methods, GoIfaceMethod{Name: g.nm.camelVerb(!r.Chance(1, 5)), Params: renderParams(ps), Fields: ps, Results: g.results()})
 		}
 		if nm > 0 && r.Chance(1, 10) {
 			it.Embeds = append(it.Embeds, r.Pick([]string{"fmt.Stringer", "io.Closer", capitalize(r.Pick(lowerWords)) + "er"}))
@@ -620,11 +646,16 @@ func GenGo(r *run.Rand, file string, idBase int) *GoFile {
 		fn := &GoFunc{Name: g.nm.camelVerb(r.Bool())}
 		fn.Params = g.params()
 		fn.Results = g.results()
-		fn.Body = g.body(fn)
+		if r.Chance(1, 10) {
+			fn.NoBody = true // implemented in assembly / linked in
+		} else {
+			fn.Body = g.body(fn)
+		}
 		funcs = append(funcs, fn)
 	}
 
-	// layout: either all types first (grouped or not), or interleaved; a method always comes after its type
+	// layout: either all types first (grouped or not), or interleaved; in the interleaved layout one method in four
+	// is placed anywhere, i.e. possibly above the declaration of its receiver type
 	grouped := len(typeDecls) >= 2 && r.Chance(1, 6)
 	switch {
 	case grouped:
@@ -641,6 +672,7 @@ func GenGo(r *run.Rand, file string, idBase int) *GoFile {
 		}
 	default:
 		// interleave: insert every function at a random position, methods at a random position after their type
+		// (or, one in four, at any position)
 		decls := append([]GoDecl{}, typeDecls...)
 		for _, fn := range funcs {
 			at := r.Intn(len(decls) + 1)
@@ -653,13 +685,30 @@ func GenGo(r *run.Rand, file string, idBase int) *GoFile {
 					pos = i + 1
 				}
 			}
+			if r.Chance(1, 4) {
+				pos = 0
+			}
 			at := pos + r.Intn(len(decls)-pos+1)
 			decls = append(decls[:at], append([]GoDecl{{Func: me}}, decls[at:]...)...)
 		}
 		f.Decls = decls
 	}
+	f.markAboveType()
 	f.render(r)
 	return f
+}
+
+// markAboveType sets AboveType on every method that is written above the declaration of its receiver type.
+func (f *GoFile) markAboveType() {
+	declared := map[string]bool{}
+	f.walk(func(d *GoDecl) {
+		if d.Struct != nil {
+			declared[d.Struct.Name] = true
+		}
+		if d.Func != nil && d.Func.Recv != nil {
+			d.Func.AboveType = !declared[d.Func.Recv.Type]
+		}
+	})
 }
 
 func (f *GoFile) render(r *run.Rand) {
@@ -669,10 +718,14 @@ func (f *GoFile) render(r *run.Rand) {
 	}
 	sb.WriteString("package " + f.Pkg + "\n\n")
 	imp := func(im GoImport) string {
-		if im.Alias != "" {
-			return im.Alias + " \"" + im.Path + "\""
+		q := "\""
+		if im.Raw {
+			q = "`"
 		}
-		return "\"" + im.Path + "\""
+		if im.Alias != "" {
+			return im.Alias + " " + q + im.Path + q
+		}
+		return q + im.Path + q
 	}
 	if len(f.Imports) > 0 {
 		switch f.ImportStyle {
@@ -765,6 +818,10 @@ func (f *GoFile) render(r *run.Rand) {
 					sb.WriteString("(" + t + ") ")
 				}
 			}
+			if fn.NoBody {
+				sb.WriteString(fn.Name + "(" + renderParams(fn.Params) + ")" + fn.Results + "\n\n")
+				continue
+			}
 			sb.WriteString(fn.Name + "(" + renderParams(fn.Params) + ")" + fn.Results + " {\n")
 			for _, s := range fn.Body {
 				sb.WriteString("\t" + s.Text + "\n")
@@ -784,6 +841,9 @@ func (f *GoFile) Shape() string {
 			sb.WriteString("a")
 		} else {
 			sb.WriteString("p")
+		}
+		if im.Raw {
+			sb.WriteString("r")
 		}
 	}
 	recvIdx := map[string]int{}
@@ -808,12 +868,17 @@ func (f *GoFile) Shape() string {
 		default:
 			fn := d.Func
 			if fn.Recv != nil {
-				fmt.Fprintf(&sb, "M(%d,%v,%v;", recvIdx[fn.Recv.Type], fn.Recv.Pointer, fn.Recv.Var != "")
+				fmt.Fprintf(&sb, "M(%d,%v,%v,%v;", recvIdx[fn.Recv.Type], fn.Recv.Pointer, fn.Recv.Var != "", fn.AboveType)
 			} else {
-				sb.WriteString("F(")
+				fmt.Fprintf(&sb, "F(%v", fn.NoBody)
 			}
 			for _, p := range fn.Params {
 				fmt.Fprintf(&sb, "%d", len(p.Names))
+				for _, n := range p.Names {
+					if n == "_" {
+						sb.WriteString("_")
+					}
+				}
 			}
 			sb.WriteString(";")
 			for _, s := range fn.Body {
